@@ -29,6 +29,10 @@ def main():
     ctx = Ctx('C02', 'translation_validation', variants=('plain',))
     b = ctx.b; rng = ctx.rng
     progs, disc = progset.pool(b, ctx, ctx.q(25, 200), ctx.q(20, 300), ctx.q(40, 400), 'C02')
+    # opt-in generator families (see DESIGN, C01): shapes the shared pools do not contain
+    nopt = ctx.q(4, 40)
+    for fam, extra in (('fluid', ('fluids',)), ('tagged', ('taggedunion', 'unions')), ('counter', ('counters', 'closures'))):
+        progs += progset.generated('C02-%s-pool' % fam, nopt // 2, extra=extra)[0] + progset.generated('C02-%s-fresh-%d' % (fam, ctx.seed), nopt - nopt // 2, extra=extra)[0]
     allcs = configs(random.Random('C02-configs-%d' % ctx.seed), ctx.tier)
     base = ctx.tmp('w')
     def run_cfg(j, tag, opts, route):
@@ -86,6 +90,8 @@ def main():
                 pr['name'], tag, ' '.join(dict(allcs).get(tag, [])), rt, rxc, (ro or b'')[-1500:].decode(errors='replace'), xc, (o or b'')[-1500:].decode(errors='replace'), p.err[-600:].decode(errors='replace'))}
             who = pr['name'] if kind == 'corpus' else 'generated'
             if 'watchdog' in xc and 'watchdog' not in rxc:
+                # the experimental kill-pointers pass (off at every level) produces wrong code: a run that does not end is the same finding as one that faults
+                if 'killp' in tag and tag.startswith('Q0+'): ctx.violation('behaviour-changed:killp-experimental', '%s under %s on %s does not terminate' % (pr['name'], tag, rt), files); continue
                 ctx.violation('hang:%s:%s' % (fam, who), '%s under %s on %s does not terminate' % (pr['name'], tag, rt), files); continue
             if rxc.startswith('compile-') or 'watchdog' in rxc: continue       # no reference behaviour
             if xc.startswith('compile-'):
